@@ -20,17 +20,42 @@ time_t time(time_t *t)
  * A format that starts with a conversion gets an arbitrary (possibly empty) result. */
 int snprintf(char *s, size_t n, const char *fmt, ...)
 {
+	unsigned i;
+	char lit = '\0';
+
 	if (n == 0)
 		return nondet_int();
 	if (n == 1) {
 		s[0] = '\0';
 		return nondet_int();
 	}
-	if (fmt[0] == '%' || fmt[0] == '\0') {
-		s[0] = nondet_char();
+	/* first literal character of the format (conversions are skipped): the real output contains
+	 * it, so the real message is non-empty whenever one exists */
+	for (i = 0; i < 8 && fmt[i]; i++) {
+		if (fmt[i] == '%') {
+			unsigned k;
+			if (fmt[i + 1] == '%') {
+				lit = '%';
+				break;
+			}
+			for (k = i + 1; k < i + 6 && fmt[k]; k++) {
+				char c = fmt[k];
+				if (c == 's' || c == 'd' || c == 'i' || c == 'u' || c == 'x' || c == 'X' || c == 'c' || c == 'p')
+					break;
+			}
+			i = k;
+			if (!fmt[i])
+				break;
+		} else {
+			lit = fmt[i];
+			break;
+		}
+	}
+	if (lit == '\0') {
+		s[0] = nondet_char();      /* conversions only: content (and emptiness) arbitrary */
 		s[1] = '\0';
 	} else {
-		s[0] = fmt[0];
+		s[0] = lit;
 		s[1] = '\0';
 	}
 	return nondet_int();
